@@ -125,11 +125,12 @@ class StepResult:
         self.stdout = ''
 
 
-def apply(state: State, ev, fsdirs, N=2, backend=W.MemBackend, cache_of=None):
+def apply(state: State, ev, fsdirs, N=2, backend=W.MemBackend, cache_of=None, fault=None):
     """Run one command as a fresh process. ev = ('snap', user, fsid) | ('del', user, [ledger idx]) |
     ('delname', user, [names]) | ('clean', user)."""
     new = state.clone()
     store = W.Store(new.o)
+    store.fault = fault
     uname = ev[1]
     user = user_obj(new, uname)
     new.seq += 1
@@ -389,3 +390,85 @@ def temporal_reference_check(before: State, after: State, mutations):
         else:
             present[name] = data
     return problems
+
+
+# ---------------------------------------------------------------- long-lived sessions
+def run_session(state0: State, events, fsdirs, N=2, backend=W.MemBackend):
+    """Library-style use: ONE Repository object per user is kept for the whole
+    history (all commands run in one event loop). Returns the list of
+    (event, State after it, StepResult)."""
+    import datetime as dt
+    store = W.Store(state0.o)
+    cur = state0.clone()
+    out = []
+    W.set_random(f'session:{events!r}')
+
+    async def go():
+        repos = {}
+        try:
+            for ev in events:
+                uname = ev[1]
+                new = cur_holder[0].clone()
+                new.seq += 1
+                W.set_clock(dt.datetime(2024, 1, 1) + dt.timedelta(hours=new.seq))
+                res = StepResult()
+                m0, c0 = len(store.mutations), len(store.calls)
+                with W.captured():
+                    try:
+                        if uname not in repos:
+                            repos[uname] = await W.a_open(store, user_obj(new, uname), N=N, backend=backend)
+                        repo = repos[uname]
+                        if ev[0] == 'snap':
+                            r = await repo.snapshot(paths=[fsdirs[ev[2]]])
+                        elif ev[0] == 'del':
+                            r = await repo.delete_snapshots([new.ledger[i]['name'] for i in ev[2]], confirm=False)
+                        elif ev[0] == 'clean':
+                            r = await repo.clean()
+                        elif ev[0] == 'restore':
+                            r = await repo.restore(path=ev[2], snapshot_regex=ev[3] if len(ev) > 3 else None)
+                        else:
+                            raise AssertionError(ev)
+                    except Exception as e:
+                        res.exc, r = e, None
+                res.result = r
+                res.mutations = store.mutations[m0:]
+                res.calls = store.calls[c0:]
+                new.o = dict(store.o)
+                if ev[0] == 'snap' and r is not None:
+                    new.ledger.append({'loc': r.location, 'name': r.name, 'owner': uname, 'fsid': ev[2], 'seq': new.seq,
+                                       'chunks': [d.hex() for d in r.chunks]})
+                if ev[0] == 'del' and res.exc is None:
+                    gone = set(ev[2])
+                    new.ledger = [e for i, e in enumerate(new.ledger) if i not in gone]
+                new.hist.append(_ev_json(ev))
+                res.state = new
+                out.append((ev, new, res))
+                cur_holder[0] = new
+        finally:
+            with W.captured():
+                for r in repos.values():
+                    try:
+                        await r.close()
+                    except Exception:
+                        pass
+
+    cur_holder = [cur]
+    W.run(go)
+    return out
+
+
+def chunk_area(state):
+    return {k for k in state.o if k.startswith('data/')}
+
+
+def referenced_names_all(state):
+    """Names of all chunk objects referenced by the snapshot objects present, decoded
+    by the independent reader as any member of the owning family."""
+    names = set()
+    for e in state.ledger:
+        if e['loc'] not in state.o:
+            continue
+        rd = reader_for(state, e['owner'])
+        for d in rd.snapshot(e['loc'])['chunks']:
+            names.add(rd.chunk_location(d))
+    return names
